@@ -621,7 +621,7 @@ func lineColOffset(text string, line, col int) int {
 	return off + col
 }
 
-func genCfg(ch *kernel.Chooser, forC16 bool) gen.Config {
+func genCfg(ch *kernel.Chooser, forC16, big bool) gen.Config {
 	cfg := gen.Config{MaxTokens: 20 + ch.Choose(50), MaxStmts: 1 + ch.Choose(4), MaxDepth: 2 + ch.Choose(5), MaxNest: 1 + ch.Choose(4),
 		Comments: ch.Bool(1, 2), Multibyte: ch.Bool(1, 3), FuncHeavy: ch.Bool(1, 3)}
 	if forC16 {
@@ -635,12 +635,19 @@ func genCfg(ch *kernel.Chooser, forC16 bool) gen.Config {
 	} else if ch.Bool(1, 40) {
 		cfg.DeepNest = 4 + ch.Choose(30)
 	}
+	if big && cfg.DeepNest == 0 && ch.Bool(1, 4) {
+		// thorough tier: deeper bounds for a quarter of the programs
+		cfg.MaxTokens = 80 + ch.Choose(160)
+		cfg.MaxStmts = 1 + ch.Choose(8)
+		cfg.MaxDepth = 3 + ch.Choose(7)
+		cfg.MaxNest = 2 + ch.Choose(9)
+	}
 	return cfg
 }
 
 func (e *Engine) Run(prop string, ch *kernel.Chooser, st *kernel.Stats) kernel.RunResult {
 	forC16 := prop == "C16"
-	p := gen.Generate(ch, genCfg(ch, forC16))
+	p := gen.Generate(ch, genCfg(ch, forC16, e.tier == "thorough"))
 	res := kernel.RunResult{Evals: 1}
 	// validate generator ground truth against the plain lexer and strict parser
 	plainToks, pan := xutil.LexAll(lexer.NewBuilder(), p.Text, len(p.Text)+8)
